@@ -98,3 +98,27 @@ def register2(w):
         c.at["after:self.selector = self.slashnormalize(self.selector)"] = list(c.at.get("after:self.selector = self.slashnormalize(self.selector)", [])) + [("assert", clause)]
         c.opts = dict(c.opts, must_hit=list(c.opts.get("must_hit", [])) + ["after:self.selector = self.slashnormalize(self.selector)"])
         c.props.update(["C05", "C06", "C01"] if "http" not in key[0] else ["C05", "C06"])
+
+    register_ea(w)
+
+
+def register_ea(w):
+    """handleeaext under a verified contract (was assumed): which files the sidecar probe opens."""
+    GE = "pygopherd/gopherentry.py::GopherEntry."
+    GROOT = {"pygopherd/handlers/base.py:rootpath": "opt[str]"}
+    MROOT = "g:pygopherd/handlers/base.py:rootpath"
+    ROOT = "self.config.get('pygopherd', 'root')"
+    old = w.contracts.pop((GE + "handleeaext", None))
+    w.contract(GE + "handleeaext", params={"selector": "str", "vfs": "opt[obj:VFS_Real]"},
+               globals=dict(GROOT, eaexts="opt[dict[str,str]]"),
+               requires=["S.safe_sel(selector)", "vfs is not None", "vfs.config is self.config",
+                         "G.rootpath is None or G.rootpath == '' or G.rootpath == %s" % ROOT, "S.abs_root(%s)" % ROOT],
+               modifies=["self.ea", MROOT, "g:eaexts", "ghost.opened_paths", "ghost.open_files"], raises={},
+               ghost={"open_files": "trace", "opened_paths": "trace"},
+               loops={0: dict(invariant=["len(ghost.open_files) == 0"], havoc=["self.ea", "extension", "blockname"], havoc_ghost=["opened_paths"])},
+               at={"after~self.setea(": [("assert", "ghost.opened_paths[len(ghost.opened_paths) - 1] == selector + extension")]},
+               ensures=["len(ghost.open_files) == 0"],
+               opts={"assume_requires": ["S.safe_sel(selector)"], "assume_requires_why": "the sidecar extensions are configuration ([GopherEntry] eaexts); lemma extension-safe covers well-formed extensions",
+                     "must_hit": ["after~self.setea("], "cfgeval:GopherEntry/eaexts": "dict[str,str]"},
+               note="a block is filled only from the file <selector><extension> of the configured extension map - no other file is consulted - and the file is closed again",
+               props=sorted(set(old.props) | {"C15", "C08", "C01"}))
